@@ -49,7 +49,7 @@ func cmdEngineTraces(args []string) {
 	out := fs.String("out", "trace.ndjson", "trace file")
 	casesOut := fs.String("cases", "cases.ndjson", "case file (replay information)")
 	mode := fs.String("mode", "exec", "exec | fetch | mixed")
-	variants := fs.String("variants", "fresh,reloaded,second,reloaded2", "instance variants")
+	variants := fs.String("variants", "fresh,reloaded,second,reloaded2,multi", "instance variants")
 	calls := fs.Int("calls", 1, "maximum number of calls on one instance")
 	cancel := fs.Bool("cancel", false, "sweep cancellation points")
 	flagP := fs.Float64("flagp", 0.0, "probability of ReturnErrOnFailedRuleEvaluation")
@@ -82,7 +82,7 @@ func cmdEngineTraces(args []string) {
 	for i := 0; i < *n; i++ {
 		prog := g.Program()
 		rules, _ := json.Marshal(prog.JS())
-		c := &Case{GRL: prog.GRL(), RulesJS: rules, Variant: vs[r.Intn(len(vs))], Profile: p.Name, Listener: 1 + r.Intn(*listeners)}
+		c := &Case{GRL: prog.GRL(), Parts: prog.Parts(2 + r.Intn(2)), RulesJS: rules, Variant: vs[r.Intn(len(vs))], Profile: p.Name, Listener: 1 + r.Intn(*listeners)}
 		for _, ru := range prog.Rules {
 			if ru.Removed {
 				c.Removed = append(c.Removed, ru.Name)
